@@ -52,7 +52,11 @@ func refNormalize(raw string) string {
 	if len(p) == 0 || p[0] != '/' {
 		p = "/" + p
 	}
-	p = refDecode(p)
+	return refClean(refDecode(p))
+}
+
+// refClean collapses slash runs and removes dot segments of an already decoded absolute path.
+func refClean(p string) string {
 	// collapse runs of slashes
 	var c strings.Builder
 	for i := 0; i < len(p); i++ {
@@ -166,7 +170,7 @@ func structural(got string) string {
 func TestC26(t *testing.T) {
 	r := mon.Start(t, "C26")
 	defer r.Finish()
-	r.Rule("case = request path of 1-10 tokens over {/ . .. %2e %2f %25 %zz \\ bytes…}; executed through URI.Parse(host,path+?q#h), URI.SetPath and RequestCtx.Path(); compared with an independent remove_dot_segments reference; distinct = set of feature vectors (dot, dotdot, encoded dot/slash, double slash, …, segment count); non-trivial = path contains a dot segment, an escape or a double slash")
+	r.Rule("case = request path of 1-10 tokens over {/ . .. %2e %2f %25 %zz \\ bytes…}; executed through URI.Parse(host,path+?q#h), URI.SetPath, RequestCtx.Path() and (one case in three) a relative URI.Update/UpdateBytes on the parsed base, whose reference is clean(dir(reference path)+decode(rel)); compared with an independent remove_dot_segments reference; distinct = set of feature vectors (dot, dotdot, encoded dot/slash, double slash, …, segment count); non-trivial = path contains a dot segment, an escape or a double slash")
 	r.Assume("reference normaliser written from RFC 3986 5.2.4 is itself correct (cross-checked against path.Clean on the cases where both are defined)")
 	n := r.N(300_000, 20_000_000)
 	const block = 5000
@@ -211,6 +215,47 @@ func TestC26(t *testing.T) {
 				got = append(got, "RequestCtx.Path:"+string(ctx.Path()))
 			}
 			nontrivial := strings.ContainsAny(p, ".%") || strings.Contains(p, "//")
+			if parsed && rnd.Intn(3) == 0 {
+				// relative-reference family: URI.Update(rel) on the parsed base replaces the last
+				// segment of the (decoded, normalised) base path; the merged path is decoded once more
+				// only where rel itself carries escapes. Reference: clean(dir(reference path) + decode(rel)).
+				rel := strings.TrimLeft(genPath(r.Rand("rel", i)), "/")
+				dir := want[:strings.LastIndexByte(want, '/')+1]
+				if rel != "" {
+					var q strings.Builder
+					for k := 0; k < len(dir); k++ {
+						c := dir[k]
+						if c == '/' || c >= 'a' && c <= 'z' || c >= 'A' && c <= 'Z' || c >= '0' && c <= '9' {
+							q.WriteByte(c)
+						} else {
+							fmt.Fprintf(&q, "%%%02X", c)
+						}
+					}
+					var probe fasthttp.URI
+					if err := probe.Parse([]byte("example.com"), []byte(q.String()+rel)); err != nil {
+						r.Event("update_target_rejected", 1)
+					} else {
+						wantU := refClean(dir + refDecode(rel))
+						_ = u.Parse([]byte("example.com"), []byte(p+suffix))
+						if rnd.Intn(2) == 0 {
+							u.Update(rel)
+						} else {
+							u.UpdateBytes([]byte(rel))
+						}
+						gu := string(u.Path())
+						r.Event("relative_updates_compared", 1)
+						if strings.ContainsAny(dir, "%?#") {
+							r.Event("relative_updates_on_dir_with_literal_pct_or_delims", 1)
+						}
+						if gu != wantU {
+							r.Violation(i, "update-relative-path-mismatch", fmt.Sprintf("Parse(%q) then Update(%q): Path() = %q, reference %q", p+suffix, rel, gu, wantU),
+								map[string]any{"input": p + suffix, "rel": rel, "got": gu, "want": wantU})
+						} else if s := structural(gu); s != "" {
+							r.Violation(i, "structural", fmt.Sprintf("Parse(%q) then Update(%q): Path() = %q: %s", p, rel, gu, s), map[string]any{"input": p, "rel": rel, "got": gu})
+						}
+					}
+				}
+			}
 			r.Case(classOf(p), nontrivial)
 			r.Event("paths_compared", len(got))
 			if r.WantSample() && nontrivial {
@@ -229,4 +274,6 @@ func TestC26(t *testing.T) {
 		}
 	})
 	r.Require("paths_compared", n)
+	r.Require("relative_updates_compared", n/8)
+	r.Require("relative_updates_on_dir_with_literal_pct_or_delims", n/2000)
 }
